@@ -2,6 +2,10 @@
 """prints the prompt for an independent 'breaking change' sub-agent: mutant_prompt.py <Cxx> <worktree>"""
 import json, sys
 pid, wt = sys.argv[1], sys.argv[2]
+N = int(sys.argv[3]) if len(sys.argv) > 3 else 2
+PFX = sys.argv[4] if len(sys.argv) > 4 else "mut"
+NUM = {2: "TWO", 3: "THREE", 4: "FOUR"}[N]
+EXTRA = (" Spread them over DIFFERENT mechanisms: at least one in a shared helper or a less prominent method/branch that the property depends on (not the single most obvious guard), and at least one that needs a history of several operations or a rare but legal configuration to manifest." if N > 2 else "")
 p = {json.loads(l)["id"]: json.loads(l) for l in open("/verif/properties.jsonl")}[pid]
 print(f"""You are testing a verification effort by writing realistic BREAKING CHANGES to a Go repository. You get a scratch git worktree of the repository nspcc-dev/neofs-contract (NeoFS smart contracts written in the neo-go contract dialect of Go, plus a Go deployment orchestrator) at: {wt}
 Work ONLY inside {wt} (and /tmp scratch files of your own). Do not read or write anything under /verif or /repo. There is no network. Every shell call needs: export GOFLAGS=-mod=mod GOPROXY=off GOSUMDB=off GOTOOLCHAIN=local
@@ -13,9 +17,9 @@ QUANTIFIER: {p['quantifier']['text']}
 Relevant files: {p['anchors']['files']}
 
 ## Your task
-Produce TWO different, independent changes to the repository's Go sources, each of which BREAKS this property while (a) the repository still compiles (`go build ./...`), and (b) the repository's existing test suite still passes unedited (`go test -count=1 ./...` in {wt}; it takes ~10 s; tests compile the contracts from source, so you do not need to regenerate contract.nef/manifest.json and must not try to). Make them the kind of mistake a maintainer could plausibly commit (a refactoring slip, an off-by-one, a dropped or misplaced guard, a wrong comparison, a wrong key/prefix, a changed order of two statements, two sites that each look fine alone) and that needs something SPECIFIC to manifest — a particular multi-step sequence of operations, an unusual but legal input, a boundary value, a particular interleaving — not something ordinary use would expose at once. Do not weaken or delete tests. Keep each change small (a few lines). The two changes should break the property in different ways / at different sites.
+Produce {NUM} different, independent changes to the repository's Go sources, each of which BREAKS this property while (a) the repository still compiles (`go build ./...`), and (b) the repository's existing test suite still passes unedited (`go test -count=1 ./...` in {wt}; it takes ~10 s; tests compile the contracts from source, so you do not need to regenerate contract.nef/manifest.json and must not try to). Make them the kind of mistake a maintainer could plausibly commit (a refactoring slip, an off-by-one, a dropped or misplaced guard, a wrong comparison, a wrong key/prefix, a changed order of two statements, two sites that each look fine alone) and that needs something SPECIFIC to manifest — a particular multi-step sequence of operations, an unusual but legal input, a boundary value, a particular interleaving — not something ordinary use would expose at once. Do not weaken or delete tests. Keep each change small (a few lines). The changes should break the property in different ways / at different sites.{EXTRA}
 
-For each change i ∈ {{1, 2}} deliver in the directory /tmp/mut-{pid}-<i>/ :
+For each change i ∈ {{1..{N}}} deliver in the directory /tmp/{PFX}-{pid}-<i>/ :
  1. `patch.diff` — `git diff` of the change against the worktree's HEAD (sources only), applicable with `git apply`.
  2. `demo_test.go` — a Go test file (package `tests`, to be dropped into {wt}/tests/, using the same neotest helpers the existing tests in that directory use; for changes in deploy/ a test in package deploy instead — say which directory) with ONE test function `TestMutantDemo` that FAILS with your change applied and PASSES without it, demonstrating the property violation through the public contract API. Verify both directions yourself (run it with and without the change).
  3. `meta.json` — {{"property": "{pid}", "title": short title, "what_breaks": one or two sentences, "needs": what specific sequence/input/boundary is needed for it to manifest, "files": [changed files], "demo_dir": directory where demo_test.go goes, "verified": exact commands you ran and their outcome}}.
